@@ -581,7 +581,12 @@ class Sym(object):
             v = self.const_value()
             if isinstance(v, Fraction):
                 return Sym(_q(abs(v)))
-            return _lift(abs(v))
+            # complex constant: exact modulus (a rational when re^2+im^2 is a perfect square, else an exact root symbol)
+            sq = self.abs2()
+            r = sq.sqrt() if _is_perfect_square(sq.re.const_value()) else None
+            if r is not None:
+                return r
+            return _fresh_root(sq.re, "abs")
         if self.im.is_zero():
             return _fresh_abs_real(self.re)
         sq = self.abs2().re
@@ -715,6 +720,14 @@ class Sym(object):
         if self.im.is_zero():
             return "Sym(%r%s)" % (self.re, ", cplx" if self.cplx else "")
         return "Sym(%r + i*%r)" % (self.re, self.im)
+
+
+def _is_perfect_square(v):
+    v = Fraction(v)
+    if v < 0:
+        return False
+    n, d = v.numerator, v.denominator
+    return math.isqrt(n) ** 2 == n and math.isqrt(d) ** 2 == d
 
 
 class SymZeroDivision(ZeroDivisionError):
